@@ -108,11 +108,13 @@ EVALUATORS = {"canon": eval_canon}
 
 def _fix_edges(url):
     """a URL never starts or ends with raw whitespace (ural documents stripping it)"""
-    if url.endswith(" "):
-        url = url[:-1] + "%20"
-    if url.startswith(" "):
-        url = "%20" + url[1:]
-    return url
+    from urllib.parse import quote as _q
+    while url and url[-1].isspace():      # any Unicode whitespace, not only U+0020
+        url = url[:-1] + _q(url[-1])
+    lead = ""
+    while url and url[0].isspace():
+        lead, url = lead + _q(url[0]), url[1:]
+    return lead + url
 
 
 def _case_from_struct(v):
